@@ -38,6 +38,7 @@ fn interesting(d: &Diagram) -> bool {
 }
 
 fn check(t: &mut Tape, ctx: &mut Ctx) -> CheckResult {
+    ctx.cap_medium(260);
     let sz = ctx.sizes;
     let al = gen::alpha(t, &sz);
     match t.weighted(&[3, 2, 3]) {
